@@ -1607,3 +1607,9 @@ Lemma malformed_inert_with_drop_stmt :
     map (fun x => snd x) (skipn 3 tr) = [[]] /\
     map q_try (ch_queries st) = [0] /\ map q_conn (ch_queries st) = [Some 10].
 Proof. eexists. eexists. vm_compute. repeat split. Qed.
+
+(* same_questions reads nothing of the response but its question section (in particular not the
+   TC bit, the rcode or the OPT record) *)
+Lemma same_questions_only_question cfg q p p' :
+  p_qd p = p_qd p' -> same_questions cfg q p = same_questions cfg q p'.
+Proof. intros E. unfold same_questions. now rewrite E. Qed.
